@@ -1,0 +1,23 @@
+//go:build verif
+
+package twofactor
+
+// Contracts for /verif (contract-based deductive verification of the real
+// code). Comment-only: no code; visible only with the build tag "verif".
+//
+//@ func UseRecoveryCode
+//@   property C12 C02 C13
+//@   option summary callers use this contract, not the body
+//@   invariant loop#1 no_earlier_match: rangeindex >= -1 &&
+//@       (forall k int :: (0 <= k && k <= rangeindex) ==> !hash_ok(elem(codes, k), inputCode))
+//@   invariant loop#2 copied: rangeindex >= -1 &&
+//@       (forall k int :: (0 <= k && k <= rangeindex && k != use) ==> elem(ret, ite(k < use, k, k - 1)) == elem(codes, k))
+//@   -- the first stored code that bcrypt accepts is removed and the rest keep their order;
+//@   -- without a match nothing is returned
+//@   ensures use_code_spec: ite(result.1,
+//@       (exists i int :: 0 <= i && i < len(codes) && hash_ok(elem(codes, i), inputCode) &&
+//@           (forall k int :: (0 <= k && k < i) ==> !hash_ok(elem(codes, k), inputCode)) &&
+//@           len(result.0) == len(codes) - 1 &&
+//@           (forall m int :: (0 <= m && m < len(codes) - 1) ==> elem(result.0, m) == elem(codes, ite(m < i, m, m + 1)))),
+//@       (forall k int :: (0 <= k && k < len(codes)) ==> !hash_ok(elem(codes, k), inputCode)))
+//@   ensures no_panic: !panics
